@@ -21,6 +21,18 @@ def gen_psg(wd):
     if head == body:
         raise RuntimeError("signature of prediction_structure_group_ctor not recognised")
     open(os.path.join(wd, "c17_psg_prefix.inc"), "w").write("/* sliced verbatim: prediction_structure_group_ctor up to the structure count */\n" + head + "    (void)pred_struct_index; (void)ref_idx; (void)hierarchical_level_idx; (void)pred_type_idx; (void)number_of_references;\n    return EB_ErrorNone;\n}\n")
+def gen_ctx(wd):
+    from vlib import layout
+    leaves = layout.leaf_fields("EbEncodeContext.h", "EncodeContext", wd)
+    ptrs = [(n, t) for n, t in leaves if "*" in t and "[" not in n and "(" not in t and "." not in n]
+    if len(ptrs) < 10:
+        raise RuntimeError("pointer fields of EncodeContext not recognised (%d)" % len(ptrs))
+    skip = ("app_callback_ptr", "dctor")
+    with open(os.path.join(wd, "c17_ctx_fields.inc"), "w") as f:
+        for n, t in ptrs:
+            if n in skip:
+                continue
+            f.write('    FRESH(a->%s, b->%s, "%s");\n' % (n, n, n))
 META = {
     "level_text": "2-call queries on the two pieces of process-global state that per-instance initialisation writes: after instance A initialises and instance B initialises with arbitrary (possibly different) parameters, A's view of the globals is asserted unchanged. Both assertions FAIL on the unchanged tree by construction of the code (the globals are rebuilt in place) and are recorded as known findings with their replay; the check exists so that the findings stay visible and any further shared global added to these two initialisers is reported as new.",
     "level_note": "Shared-state level only; that two concurrently running encodes actually diverge needs a two-instance run, which is not encodable. The table builders called by build_blk_geom are empty stubs: only the geometry parameters selected for the tables are compared.",
@@ -34,7 +46,10 @@ def queries(tier):
                      funcs=["Source/Lib/Encoder/Codec/EbPredictionStructure.c:prediction_structure_group_ctor (up to the structure count, sliced)", "Source/Lib/Encoder/Codec/EbPredictionStructure.c:prediction_structure_config_array_ctor"],
                      bound="every preset 0..13; manual prediction structure %s" % ("off" if not manual else "on, %d hierarchical levels, %d entries, arbitrary entry contents" % (hl, en)),
                      what="construction customises a private copy; the process-wide default tables stay bit-identical and are not aliased by the instance")
-    return [ps(0, 3, 1), ps(1, 2, 4), ps(1, 0, 1),
+    ctx = Query(name="encode_context_storage_private", harness="C17/enc_ctx.c", gen=gen_ctx, unwind=6, timeout=900, flags=["--object-bits", "10", "--slice-formula"],
+                funcs=["Source/Lib/Encoder/Codec/EbEncodeContext.c:encode_context_ctor", "Source/Lib/Encoder/Codec/EbEncodeContext.c:create_stats_buffer"],
+                bound="two instances; queue depths scaled to 2; entry constructors and rate_control_tables_init stubbed", what="every pointer field the constructor fills refers to heap storage private to the instance (pointer-field list from the clang record layout)")
+    return [ctx, ps(0, 3, 1), ps(1, 2, 4), ps(1, 0, 1),
             Query(name="blk_geom_shared", harness="C17/globals.c", defines=["MODE=1"], unwind=4, timeout=600, gen=gen,
                   funcs=["Source/Lib/Common/Codec/EbUtility.c:build_blk_geom"], bound="two initialisations, superblock size 64/128 each", what="instance A's block geometry survives instance B's initialisation"),
             Query(name="rtcd_shared", harness="C17/globals.c", defines=["MODE=2"], unwind=4, simd=True, timeout=600, flags=["--object-bits", "12"],
